@@ -10,6 +10,8 @@ NOT_DECIDED = "guard values flipping at arbitrary ticks (runtime)"
 
 
 def check(ctx):
+    ctx.rule("T3-guardclone", "Act.clone returns a copy of the receiver's own class (a negated entry guard `let me if not ..` is an Nact: cloned as a plain Act it loses its negation)")
+    _framing.act_clone_preserves_class(ctx, "T3-guardclone")
     _framing.entry_guards(ctx)
     from .c04 import start_guards
     start_guards(ctx)      # the start path of a framer is an entry too (first frame outline's guards)
